@@ -104,6 +104,67 @@ def main():
         finish(0)
 
     prop.last_write = last.write
+
+    from hypothesis import given, settings, seed, HealthCheck, Phase, Verbosity
+
+    # ---- cold-start probes: the first calls a process ever makes.  State the library sets up lazily (lookup tables, caches,
+    # self-tuned sizes) is still untouched then; thousands of cases in one process would only ever see it warm.  A few dozen
+    # generated cases are therefore each run in a forked child of this still-cold process.
+    cold_cases = []
+    ncold = int(os.environ.get("VERIF_COLD", "24")) if getattr(prop, "COLD_PROBES", True) else 0
+    if ncold:
+        @seed(args.seed ^ 0x5EED)
+        @settings(max_examples=ncold, database=None, deadline=None, derandomize=False, suppress_health_check=list(HealthCheck),
+                  phases=[Phase.generate], verbosity=Verbosity.quiet)
+        @given(prop.strategy(args.tier))
+        def collect(case):
+            cold_cases.append(case)
+        try:
+            collect()
+        except Exception:
+            result["harness_error"] = traceback.format_exc()
+            finish(3)
+    for case in cold_cases:
+        last.write(case)
+        rfd, wfd = os.pipe()
+        pid = os.fork()
+        if pid == 0:
+            os.close(rfd)
+            code = 0
+            try:
+                run_one(lib, prop, case, core.Stats())
+            except Violation as v:
+                os.write(wfd, json.dumps({"msg": v.msg, "key": v.key}).encode())
+                code = 7
+            except BaseException:
+                os.write(wfd, traceback.format_exc().encode()[-4000:])
+                code = 3
+            os._exit(code)
+        os.close(wfd)
+        data = b""
+        while True:
+            chunk = os.read(rfd, 65536)
+            if not chunk:
+                break
+            data += chunk
+        os.close(rfd)
+        _, status = os.waitpid(pid, 0)
+        stats.evaluations += 1
+        stats.cls("cold_start_probe")
+        if os.WIFEXITED(status) and os.WEXITSTATUS(status) == 0:
+            continue
+        if os.WIFEXITED(status) and os.WEXITSTATUS(status) == 7:
+            v = json.loads(data.decode() or "{}")
+            result["failure"] = {"case": core.enc(case), "msg": "(first call in a fresh process) " + v.get("msg", ""), "key": v.get("key"), "detail": None}
+            finish(0)
+        if os.WIFEXITED(status) and os.WEXITSTATUS(status) == 3:
+            result["harness_error"] = data.decode(errors="replace")
+            finish(3)
+        # sanitizer abort or signal in the child: die the same way, the runner takes the last case as the crash candidate
+        sys.stderr.write("cold-start probe died: status %d\n" % status)
+        sys.stderr.flush()
+        os._exit(os.WEXITSTATUS(status) if os.WIFEXITED(status) else 86)
+
     try:
         prop.prelude(lib, stats, args.index, args.nworkers, args.tier)
     except Violation as v:
@@ -114,8 +175,6 @@ def main():
     except Exception:
         result["harness_error"] = traceback.format_exc()
         finish(3)
-
-    from hypothesis import given, settings, seed, HealthCheck, Phase, Verbosity
 
     holder = {}
 
